@@ -141,6 +141,53 @@ def run(P, tier="quick"):
         R.violated(Finding("R03", {"C13"}, FILE, "vnaproperty_vdelete", "success-implies-delete",
                            "vnaproperty_vdelete can return 0 (line %d) without having called map_delete, list_delete or "
                            "vnaproperty_free: the addressed entry stays in its collection" % n.line, n.line, trace))
+    # VACATED-NULL: list_subtree raises vpl_length in one step (sparse extend) and does not write the slots it
+    # exposes: it relies on "every slot in [vpl_length, vpl_allocation) is NULL".  list_check_allocation keeps that
+    # for new memory (memset of the tail); every function that *lowers* vpl_length must keep it for the slot it vacates
+    from ..util import is_null as _is_null
+    growers, shrinkers = [], []
+    for f in P.by_file.get(FILE, []):
+        if f.body is None:
+            continue
+        for n in f.walk():
+            if n.k == "BinaryOperator" and n.op == "=" and n.kids[0].strip().k == "MemberExpr" and \
+                    n.kids[0].strip().member == "vpl_length" and n.kids[1].strip().cv != 0:
+                wrote = any(m.k == "BinaryOperator" and m.op == "=" and m.kids[0].strip().k == "ArraySubscriptExpr" and
+                            m.kids[0].strip().kids[0].strip().k == "MemberExpr" and
+                            m.kids[0].strip().kids[0].strip().member == "vpl_vector" for m in f.walk())
+                if not wrote:
+                    growers.append((f, n))
+            if n.k == "UnaryOperator" and n.op == "--" and n.kids[0].strip().k == "MemberExpr" and \
+                    n.kids[0].strip().member == "vpl_length":
+                shrinkers.append((f, n))
+            if n.k == "CompoundAssignOperator" and n.op == "-=" and n.kids[0].strip().k == "MemberExpr" and \
+                    n.kids[0].strip().member == "vpl_length":
+                shrinkers.append((f, n))
+    if not growers or not shrinkers:
+        raise AnalysisBroken("vnaproperty.c: sparse-extend of vpl_length (%d) or shrink of vpl_length (%d) not found" %
+                             (len(growers), len(shrinkers)))
+    for (f, n) in shrinkers:
+        key = "R03|%s|%s|vacated-null" % (FILE, f.name)
+        cleared = False
+        for m in f.walk():
+            if m.k == "BinaryOperator" and m.op == "=" and _is_null(m.kids[1]):
+                l = m.kids[0].strip()
+                if l.k == "ArraySubscriptExpr" and l.kids[0].strip().k == "MemberExpr" and l.kids[0].strip().member == "vpl_vector":
+                    idx = l.kids[1].strip()
+                    # v[--len] = NULL   or   --len; ... v[len] = NULL (after the decrement)
+                    if (idx.k == "UnaryOperator" and idx.op == "--" and idx.kids[0].strip().k == "MemberExpr" and
+                            idx.kids[0].strip().member == "vpl_length") or \
+                            (idx.k == "MemberExpr" and idx.member == "vpl_length" and m.line >= n.line):
+                        cleared = True
+        if cleared:
+            R.ok(key, {"C13", "C03"})
+        else:
+            g = growers[0]
+            R.violated(Finding("R03", {"C13", "C03"}, FILE, f.name, "vacated-null",
+                               "%s lowers vpl_length (line %d) without storing NULL in the slot it vacates; %s (line %d) raises "
+                               "vpl_length past the end without writing the slots in between, so the stale pointer reappears as a "
+                               "list element (a dangling one if the last element was deleted)" %
+                               (f.name, n.line, g[0].name, g[1].line), n.line))
     # WRAPPER-ANCHOR: the vnacal_property_* wrappers hand the library the address of the root pointer stored in
     # the calibration (what _get_property_root returned); the address of a local copy would lose a new root
     from ..canon import Canon
@@ -164,6 +211,29 @@ def run(P, tier="quick"):
                                        "do not reach the calibration's own root pointer" % (c.callee, a0, want), c.line))
     if nw < 8:
         raise AnalysisBroken("vnacal_property.c: only %d wrapper calls found" % nw)
+    # WRAPPER-VERB: vnacal_property_<verb> forwards to vnaproperty_v<verb> and to no other descriptor function
+    # (a "get" that forwards to vset creates keys, replaces nodes and extends lists on a query)
+    nv_ = 0
+    for f in P.by_file.get("vnacal_property.c", []):
+        if not f.name.startswith("vnacal_property_") or f.body is None:
+            continue
+        verb = f.name[len("vnacal_property_"):]
+        calls = [c for c in f.calls() if c.callee in MUT or c.callee in READ]
+        if not calls:
+            continue
+        nv_ += 1
+        key = "R03|vnacal_property.c|%s|verb" % f.name
+        wrong = [c for c in calls if c.callee != "vnaproperty_v" + verb]
+        if not wrong:
+            R.ok(key, {"C13"})
+        else:
+            c = wrong[0]
+            R.violated(Finding("R03", {"C13"}, "vnacal_property.c", f.name, "verb",
+                               "%s forwards to %s instead of vnaproperty_v%s: %s" %
+                               (f.name, c.callee, verb, "a query function modifies the tree" if c.callee in MUT and
+                                "vnaproperty_v" + verb in READ else "the wrapper does not do what its name says"), c.line))
+    if nv_ < 8:
+        raise AnalysisBroken("vnacal_property.c: only %d vnacal_property_* wrappers found" % nv_)
     # IDCHAR-CLASSES: quote_key must classify the first and the following characters with the scanner's own macros
     qk = P.need_func("vnaproperty_quote_key", FILE)
     sc = P.need_func("scan", FILE)
